@@ -197,6 +197,12 @@ func checkC02(c *Case, st *Stats) string {
 				return "parsed function on " + hd + " (UseNumber): " + msg
 			}
 		}
+		// ... and on a document built in Go whose members hold values of one uncomparable type
+		out, e2 = f(goBuiltHardDoc())
+		st.Eval(1)
+		if msg := runtimeOutcome(out, e2); msg != "" {
+			return "parsed function on a document with []string / map[string]int members: " + msg
+		}
 	}
 	if msg := severalConfigs(c, st); msg != "" {
 		return msg
